@@ -70,6 +70,7 @@ type storeRec struct {
 	lazy    bool       // nobody asks for the id before the handler does (then from three goroutines at once, and through a copy of the Store)
 	mux     *httpd.Mux // for the sub-request
 	changed string     // something this request observes changed while it was being served
+	nrGen   int        // which installation of the no-route handler served this request (0 = a route handler)
 }
 
 type storeCtxKey struct{}
@@ -155,6 +156,7 @@ func storeRelay(s *httpd.Store) {
 
 // storeMux is a real Mux together with the harness' bookkeeping of what has been registered.
 type storeMux struct {
+	nrGen int // how often HandleNoRoute has been called
 	mux   *httpd.Mux
 	regs  []routerReg     // every attempted registration, in order
 	ok    []routerSpRoute // accepted ones (id = position)
@@ -164,8 +166,19 @@ type storeMux struct {
 func storeNewMux() *storeMux {
 	m := &storeMux{mux: httpd.NewMux(), names: []string{"nowhere", "/:any"}}
 	m.mux.HandleRelay(storeRelay)
-	m.mux.HandleNoRoute(storeHandler(-1))
+	m.installNoRoute()
 	return m
+}
+
+// installNoRoute (re)installs the no-route handler; every installation carries its number.
+func (m *storeMux) installNoRoute() {
+	m.nrGen++
+	gen := m.nrGen
+	inner := storeHandler(-1)
+	m.mux.HandleNoRoute(func(s *httpd.Store) {
+		s.R.Context().Value(storeCtxKey{}).(*storeRec).nrGen = gen
+		inner(s)
+	})
 }
 
 // register returns the error class ("" = accepted) and the number of captures.
@@ -301,6 +314,9 @@ func storeCheck(s *Stream, m *storeMux, q storeReq, rec *storeRec, panicked stri
 		}
 	}
 	// ids: constant within the request, prefix constant within the Mux, unique within the Mux
+	if rec.handle.id == -1 && rec.nrGen != m.nrGen && q.Sub == 0 {
+		s.Violate("leak", fmt.Sprintf("%+v: served by the no-route handler installed by call %d of HandleNoRoute; the one in force is that of call %d (a Store remembered the earlier one)", q, rec.nrGen, m.nrGen), replay())
+	}
 	if rec.changed != "" {
 		s.Violate("state-changed-during-request", fmt.Sprintf("%+v: %s", q, rec.changed), replay())
 	}
@@ -646,6 +662,9 @@ func runStore(cfg Cfg) {
 			q := storeRandReq(r, m)
 			q.Panics = false
 			q.Sub, q.Lazy = Pick(r, []int{0, 0, 1, 2}), r.Chance(30)
+			if i%5 == 3 {
+				m.installNoRoute() // the no-route handler is replaced while Stores that served earlier requests are pooled
+			}
 			hist = append(hist, q)
 			rec, p := m.do(q, names)
 			hcopy := append([]storeReq{}, hist...)
@@ -697,7 +716,44 @@ func runStore(cfg Cfg) {
 			runtime.GC()
 		}
 	}
+	// ---- mode 4 (direct oracle only): one Mux with a long life - thousands of requests, ids stay unique and
+	// keep the Mux's prefix
+	for h := 0; h < cfg.N(2, 8); h++ {
+		r := rng.Fork()
+		m := storeNewMux()
+		for _, reg := range Pick(r, storeDirected) {
+			m.register(reg)
+		}
+		names := append([]string{}, m.names...)
+		seen := map[string]int{}
+		prefix := ""
+		n := cfg.N(3000, 60000)
+		for i := 0; i < n; i++ {
+			q := storeReq{Path: Pick(r, []string{"/s", "/u/1/2", "/a/7", "/nope", "/f/x/y"}), Method: "GET"}
+			rec, p := m.do(q, names)
+			if rec.handle == nil || p != "" {
+				s.Violate("handler-count", fmt.Sprintf("request %d of a long-lived Mux: no handler ran (panic %q)", i, p), map[string]any{"mode": "long life", "request_number": i})
+				break
+			}
+			id := rec.handle.rid
+			if j, dup := seen[id]; dup {
+				s.Violate("id-not-unique", fmt.Sprintf("one Mux handed out id %q to request %d and again to request %d", id, j+1, i+1), map[string]any{"mode": "long life", "table": m.regs, "requests": i + 1})
+				break
+			}
+			seen[id] = i
+			if len(id) < 10 || id[8] != '-' || (prefix != "" && id[:9] != prefix) {
+				s.Violate("id-format", fmt.Sprintf("request %d: id %q (prefix of this Mux %q)", i+1, id, prefix), map[string]any{"mode": "long life"})
+				break
+			}
+			prefix = id[:9]
+		}
+		s.Evaluations += n
+		s.Count("mux.long-life")
+		s.Nontrivial(fmt.Sprintf("long-life/%d", h))
+		runtime.GC()
+	}
 	s.Notes = append(s.Notes,
+		"mode 4 (no model side): one Mux serving 3 000 (thorough: 60 000) requests: ids unique, one prefix",
 		"mode 3 (no model side): handlers serving a nested request through the same Mux - re-dispatch with the outer request's own s.W, or a sub-request with a private recorder -, ids first asked for inside the handler (through a by-value copy of the Store and from three goroutines at once), then 4 goroutines of such requests; oracle: nothing the outer request observes changes while it is served, the nested request has its own id and starts with status 0, every observation equals that on a fresh Mux",
 		"mode 1: one goroutine, GC off (debug.SetGCPercent(-1)); reuse of pooled Stores is measured by pointer identity (distribution: request.on-reused-store / request.on-new-store), never assumed by the oracle; `dropall` = two runtime.GC() calls, after which sync.Pool has forgotten everything",
 		"mode 2: 8 goroutines x 3 bursts on one Mux, registrations between the bursts; `reqx` lines are compared with the model without the id (the order in which the goroutines draw ids is not determined), ids are checked for uniqueness and constant prefix by the direct oracle",
